@@ -3,7 +3,7 @@
    Proofs/Dgram_lemmas.v, followed by Print Assumptions.  Model: Model/Dgram.v (the code after
    the repairs F3, F4, F10, F16; `as_found` = the code before them).                          *)
 From Coq Require Import List NArith Ascii Bool.
-From SV Require Import Lib.Bytes Lib.DgramLib Model.Chan Model.Dgram Proofs.Dgram_lemmas Proofs.DgramServer_lemmas Proofs.DgramSystem_lemmas Gen.Consts.
+From SV Require Import Lib.Bytes Lib.DgramLib Model.Chan Model.Dgram Proofs.Dgram_lemmas Model.DgramSys Proofs.DgramServer_lemmas Proofs.DgramSystem_lemmas Proofs.DgramMixed_lemmas Gen.Consts.
 Import ListNotations.
 Local Open Scope N_scope.
 
@@ -244,7 +244,7 @@ Theorem c10_server_step_invariant :
     sinv s -> Forall (fun f => fst (fst (fst f)) <= 65535) (se_frames e) ->
     match sstep all_fixed cfg s e with
     | Ok (s', _) => sinv s' /\ s_chan s' = track (s_chan s) (se_frames e)
-    | Fatal => True
+    | Fatal => False
     | Crash x => step_cause (s_chan s) (only_dns s) e x
     end.
 Proof.
@@ -305,7 +305,8 @@ Example c10_server_causes_example :
   snd (srun all_fixed w_scfg s_init w_reopen) = Crash XAssert /\
   snd (srun all_fixed w_scfg s_init w_badopen) = Crash XValue /\
   snd (srun all_fixed w_scfg s_init w_bigport) = Crash XOverflow /\
-  snd (srun all_fixed w_scfg s_init w_fatal_reopen) = Fatal /\
+  snd (srun as_found w_scfg s_init w_fatal_reopen) = Fatal /\
+  snd (srun all_fixed w_scfg s_init w_fatal_reopen) = Ok tt /\
   snd (srun all_fixed w_scfg s_init w_reopen_next_iteration) = Ok tt.
 Proof. exact witnesses_crash. Qed.
 Example c10_server_alias_example :
@@ -369,6 +370,18 @@ Theorem c10_system_dns_never_raises :
   Forall dns_event evs -> never_raises cc sc y_init evs.
 Proof. intros cc sc H evs. apply (system_dns_never_raises cc sc H). apply dinv_init. Qed.
 Print Assumptions c10_system_dns_never_raises.
+
+(* END TO END with DNS, UDP and TCP-accept events mixed (Proofs/DgramMixed_lemmas.v; the same theorem is
+   c11_system_never_raises, where the statement is explained): along every sane run of the composed system from
+   y_init, under the single hypothesis no_stale_alloc_any (an identifier is not put on the wire for a new flow
+   while anything of its previous incarnation is in flight), neither the client nor the server ever raises or
+   leaves through Fatal.  The server half holds without the hypothesis (c11_system_server_never_raises); for
+   DNS-only runs neither side needs it (c10_system_dns_never_raises above). *)
+Theorem c10_system_never_raises :
+  forall cc sc, cfg_ok' cc -> forall evs,
+  run_sane cc sc y_init evs -> no_stale_alloc_any cc sc y_init evs -> never_fails cc sc y_init evs.
+Proof. intros cc sc H evs. exact (system_never_fails_init cc sc H evs). Qed.
+Print Assumptions c10_system_never_raises.
 
 (* non-vacuity: a run satisfying both hypotheses in which the reply reaches its asker *)
 Example c10_composed_life_cycle :
